@@ -478,10 +478,16 @@ def trace_mismatches(rej):
             out.append(dict(base, kind="pan", e=ev, expected=exp["pan"], got=ev.get("pan")))
         elif exp["ret"] != ev.get("ret"):
             out.append(dict(base, kind="ret", e=ev, expected=exp["ret"], got=ev.get("ret")))
+        same_shape = "t" not in ev or tree_shape(exp["t"]) == tree_shape(ev["t"])
         if "x" in ev:
             for i, k in enumerate(("alen", "nfree", "count")):
-                if exp["x"][i] != ev["x"][i]:
+                if exp["x"][i] != ev["x"][i] and (k == "count" or same_shape):
                     out.append(dict(base, kind=k, e=ev, expected=exp["x"][i], got=ev["x"][i]))
+        if "t" in ev:
+            w = tree_wf(ev["t"])
+            if w:
+                out.append(dict(base, kind="wf", e=ev, expected="well-formed trie", got=w))
+        base = dict(base, row=dict(cn=exp.get("cn"), keeps=exp.get("keeps")))
         if "t" in ev and exp["t"] != ev["t"]:
             ee, eg = tree_entries(exp["t"]), tree_entries(ev["t"])
             if ee != eg:
@@ -519,6 +525,38 @@ def trace_mismatches(rej):
         else:
             raise ToolError(f"pair line {rej['line']}: the code agrees with the machine but the abstract judgement fails (specification bug)")
     return out
+
+
+def tree_wf(t):
+    """C15 on an observed tree (same rule as harness/src/replay.rs:tree_wf)"""
+    if not t:
+        return None
+    if len(t) < 5:
+        return "deeper than width + 1 / more nodes than slots"
+    if t[0] != []:
+        return "the root is not the zero-length prefix"
+
+    def go(t):
+        if not t:
+            return None
+        if len(t) < 5:
+            return "deeper than width + 1 / more nodes than slots"
+        pn = t[0]
+        for side, c in ((0, t[3]), (1, t[4])):
+            if not c:
+                continue
+            if len(c) < 5:
+                return "deeper than width + 1 / more nodes than slots"
+            cn = c[0]
+            if len(cn) <= len(pn) or cn[:len(pn)] != pn:
+                return f"child {cn} is not strictly below its parent {pn}"
+            if cn[len(pn)] != side:
+                return f"child {cn} hangs on the wrong side of {pn}"
+            e = go(c)
+            if e:
+                return e
+        return None
+    return go(t)
 
 
 def tree_entries(t):
@@ -676,7 +714,16 @@ def owners_plain(mm):
             pass
         return o
     if kind == "shape":
+        # the property fixes the shape only for histories of insert / remove / retain / clear (and for
+        # value-only operations, which must not change it); elsewhere a different well-formed shape is legal
+        row = mm.get("row") or {}
+        if row.get("cn") or row.get("keeps"):
+            return {"C15"}
+        return {"C15-nonbinding"}
+    if kind in ("wf", "shape_changed"):
         return {"C15"}
+    if kind == "grow":
+        return {"C16"}
     if kind == "tree":
         return {"C18"}
     if kind in ("alen", "nfree", "partition"):
